@@ -32,7 +32,7 @@ Check(r, idx) ==
 \*   C01:       a yielded value is one the key held.
 CheckBody(r, idx) ==
     LET K == 0 .. (r.sc.n - 1)
-        touched == {r.sc.acts[j].k : j \in {x \in DOMAIN r.sc.acts : r.sc.acts[x].act \in {"set", "inv"}}}
+        touched == {r.sc.acts[j].k : j \in {x \in DOMAIN r.sc.acts : r.sc.acts[x].act \in {"set", "setshort", "inv"}}}
         Y == DOMAIN r.yields
         tEnd == IF Len(r.yields) = 0 THEN r.t0 ELSE r.yields[Len(r.yields)][3] + 1000000
         tLast == r.t0 + SumD(r.sc.acts)
@@ -42,12 +42,25 @@ CheckBody(r, idx) ==
         dupl == Cardinality(SeqToSet(keys)) # Len(keys)
         alive == {k \in K \ touched : r.exp[k + 1] # -1 /\ r.exp[k + 1] > tLast}
         missed == alive \ SeqToSet(keys)
+        \* keys the body rewrote exactly once and never invalidated: d = <<key, 1, new value, clock of the write, new deadline>>
+        once == {d \in {r.done[j] : j \in DOMAIN r.done} :
+                    /\ d[2] = 1
+                    /\ Cardinality({j \in DOMAIN r.done : r.done[j][1] = d[1]}) = 1}
+        \* ... such a key is present from the first to the last moment if the old value was alive when it was rewritten and the
+        \* new one outlives the iteration: it must be yielded (C15); a yield of the new value after ITS deadline is C03's
+        kept == {d \in once : r.exp[d[1] + 1] # -1 /\ r.exp[d[1] + 1] > d[4] /\ d[5] > tLast}
+        missed2 == {d[1] : d \in kept} \ SeqToSet(keys)
+        late2 == {y \in Y : \E d \in once : d[1] = r.yields[y][1] /\ r.yields[y][2] = d[3] /\ d[5] <= r.yields[y][3]}
+        late3 == {y \in Y : r.sc.kind = "keys" /\ \E d \in once : /\ d[1] = r.yields[y][1] /\ d[4] <= r.yields[y][3] /\ d[5] <= r.yields[y][3]
+                                                                    /\ (r.exp[d[1] + 1] = -1 \/ r.exp[d[1] + 1] <= r.yields[y][3])}
         wrongv == {y \in Y : r.yields[y][2] # -1 /\ r.yields[y][1] \in K \ touched /\ r.yields[y][2] # r.yields[y][1]}
     IN (IF late # {} THEN <<F(idx, "C03.iterated_after_deadline", <<r.sc.kind, {<<r.yields[y][1], r.exp[r.yields[y][1] + 1], r.yields[y][3]>> : y \in late}>>)>> ELSE <<>>)
        \o (IF ghost # {} THEN <<F(idx, "C03.iterated_absent_key", <<r.sc.kind, {r.yields[y][1] : y \in ghost}>>)>> ELSE <<>>)
        \o (IF r.st0 # r.st1 THEN <<F(idx, "C20.iteration_moved_lookup_counters", <<r.sc.kind, r.st0, r.st1>>)>> ELSE <<>>)
        \o (IF dupl THEN <<F(idx, "C15.iteration_yielded_key_twice", <<r.sc.kind, keys>>)>> ELSE <<>>)
        \o (IF missed # {} THEN <<F(idx, "C15.iteration_missed_present_key", <<r.sc.kind, missed>>)>> ELSE <<>>)
+       \o (IF missed2 # {} THEN <<F(idx, "C15.iteration_missed_rewritten_key", <<r.sc.kind, missed2, r.done>>)>> ELSE <<>>)
+       \o (IF late2 \cup late3 # {} THEN <<F(idx, "C03.iterated_after_deadline", <<r.sc.kind, "rewritten", {<<r.yields[y][1], r.yields[y][2], r.yields[y][3]>> : y \in late2 \cup late3}, r.done>>)>> ELSE <<>>)
        \o (IF wrongv # {} THEN <<F(idx, "C01.iterated_value_never_held", <<r.sc.kind, {<<r.yields[y][1], r.yields[y][2]>> : y \in wrongv}>>)>> ELSE <<>>)
 
 Init == i = 1 /\ dev = <<>>
